@@ -320,6 +320,70 @@ fn run_pumped(cfg: &Config, ex: &Explorer) -> Report {
     )
 }
 
+/// words whose repetition crosses the thresholds a narrowing conversion, a fixed-size table or a
+/// capacity heuristic could hide behind: every count that the lexer keeps (tokens, lines, nesting
+/// depth, mode stack, literal buffer, errors, token length) is driven past 2^8 by every core
+/// atom and past 2^16 by the hand-picked words below
+pub const SCALE_WORDS: &[&str] = &[
+    "a ", "\n", "%m(", "(", "'a''b' ", "\"&v\" ", "%str(%%)", "/*c*/", ";", "x=1;\n", "%let a=1;\n", "%macro m; ", "%do; ",
+    "\u{e9}", "\r\n", "%put a;\n", "&v", "%*c;\n", "* c;\n", "datalines;\n1\n;\n", "1 ", "'a' ", "%if 1 %then ", "%eval(",
+    "a=%sysfunc(f(", "\"", "'", "%nrstr(", "%m(a=", "&", "%", ")", "%end; ", "\"a\"\"b\" ", "1e5 ", "'41'x ",
+];
+
+pub fn scale_inputs(tier: Tier) -> Vec<(String, usize)> {
+    let mut v: Vec<(String, usize)> = Vec::new();
+    for a in spaces::s9_core() {
+        v.push((a, 300));
+    }
+    let big: &[usize] = if tier == Tier::Quick { &[257, 66_000] } else { &[255, 256, 257, 4097, 65_535, 65_536, 66_000, 140_000] };
+    for w in SCALE_WORDS {
+        // a build with debug assertions clones the mode stack in every iteration of the main loop
+        // (the lexer's own infinite-loop detector), which makes deep nesting quadratic there: words
+        // that nest are pumped to 2^12 in such builds and to 2^16 in the optimized builds only
+        let nests = match run_lexer(&w.repeat(100)) {
+            Outcome::Ok(r) => r.verif.max_mode_stack_depth > 64,
+            _ => true,
+        };
+        let cap = if nests && cfg!(debug_assertions) { 4_100 } else { usize::MAX };
+        let mut ks: Vec<usize> = big.iter().map(|k| (*k).min(cap)).collect();
+        ks.dedup();
+        for k in ks {
+            v.push(((*w).to_string(), k));
+        }
+        // the same run closed by something that consumes it: a terminator or end of a statement
+        v.push((format!("{w}\u{1}"), 66_000.min(cap)));
+    }
+    v
+}
+
+pub fn make_scale_pub(item: &(String, usize), buf: &mut String) {
+    make_scale(item, buf);
+}
+
+fn make_scale(item: &(String, usize), buf: &mut String) {
+    // "w\u{1}" marks "repeat w, then close with `;`"
+    if let Some(w) = item.0.strip_suffix('\u{1}') {
+        for _ in 0..item.1 {
+            buf.push_str(w);
+        }
+        buf.push_str(";\n)'\";\n");
+    } else {
+        for _ in 0..item.1 {
+            buf.push_str(&item.0);
+        }
+    }
+}
+
+fn run_scale(prop: &'static str, cfg: &Config, ex: &Explorer) -> Report {
+    let items = scale_inputs(cfg.tier);
+    ex.run_list(
+        "scale (w^k across the 2^8 and 2^16 thresholds)",
+        items.len() as u64,
+        |i, buf| make_scale(&items[i as usize], buf),
+        |local, input, _| visit_text(prop, local, input),
+    )
+}
+
 pub fn structural(prop: &'static str, cfg: &Config) -> PropRun {
     let (names, corpus, rule): (Vec<&str>, bool, &str) = match prop {
         "C01" => (
@@ -381,6 +445,9 @@ pub fn structural(prop: &'static str, cfg: &Config) -> PropRun {
     }
     if prop == "C01" && cfg.only_spaces.is_empty() {
         report.absorb(run_pumped(cfg, &ex));
+    }
+    if cfg.only_spaces.is_empty() {
+        report.absorb(run_scale(prop, cfg, &ex));
     }
     if matches!(prop, "C01" | "C02" | "C09" | "C10") && cfg.only_spaces.is_empty() {
         report.absorb(run_program_truncations(prop, cfg, &ex));
